@@ -63,33 +63,51 @@ type PConn struct {
 	ch     chan pkt
 	mtx    sync.Mutex
 	rd     time.Time
+	dlCh   chan struct{}
 }
 
 func (c *PConn) ReadFrom(p []byte) (int, net.Addr, error) {
-	c.mtx.Lock()
-	rd := c.rd
-	c.mtx.Unlock()
-	var timer <-chan time.Time
-	if !rd.IsZero() {
-		d := time.Until(rd)
-		if d <= 0 {
+	for {
+		c.mtx.Lock()
+		rd := c.rd
+		if c.dlCh == nil {
+			c.dlCh = make(chan struct{})
+		}
+		dl := c.dlCh
+		c.mtx.Unlock()
+		var timer <-chan time.Time
+		var t *time.Timer
+		if !rd.IsZero() {
+			d := time.Until(rd)
+			if d <= 0 {
+				return 0, nil, os.ErrDeadlineExceeded
+			}
+			t = time.NewTimer(d)
+			timer = t.C
+		}
+		select {
+		case <-c.ctx.Done():
+			if t != nil {
+				t.Stop()
+			}
+			return 0, nil, net.ErrClosed
+		case <-timer:
 			return 0, nil, os.ErrDeadlineExceeded
+		case <-dl: // deadline changed while blocked: re-evaluate
+			if t != nil {
+				t.Stop()
+			}
+			continue
+		case k := <-c.ch:
+			if t != nil {
+				t.Stop()
+			}
+			n := copy(p, k.data)
+			if n < len(k.data) {
+				return n, k.from, io.ErrShortBuffer
+			}
+			return n, k.from, nil
 		}
-		t := time.NewTimer(d)
-		defer t.Stop()
-		timer = t.C
-	}
-	select {
-	case <-c.ctx.Done():
-		return 0, nil, net.ErrClosed
-	case <-timer:
-		return 0, nil, os.ErrDeadlineExceeded
-	case k := <-c.ch:
-		n := copy(p, k.data)
-		if n < len(k.data) {
-			return n, k.from, io.ErrShortBuffer
-		}
-		return n, k.from, nil
 	}
 }
 
@@ -120,6 +138,10 @@ func (c *PConn) SetWriteDeadline(t time.Time) error { return nil }
 func (c *PConn) SetReadDeadline(t time.Time) error {
 	c.mtx.Lock()
 	c.rd = t
+	if c.dlCh != nil {
+		close(c.dlCh)
+		c.dlCh = nil
+	}
 	c.mtx.Unlock()
 	return nil
 }
